@@ -464,6 +464,75 @@ func c13Ranges(name string) (out []tableCase) {
 	return
 }
 
+// c13Products (thorough tier): the identifier fields of each table varied together - the full product of
+// their alphabets (0, all ones, alternating bits, every single bit), so that a field that borrows or
+// clobbers bits of its neighbour shows whatever value the neighbour has.
+func c13Products(name string) (out []tableCase) {
+	hv := hdrVariants()
+	switch name {
+	case "PAT":
+		for _, ts := range u16Alpha {
+			for _, pn := range u16Alpha {
+				for _, pid := range pid13Alpha {
+					h := hv[len(out)%len(hv)]
+					d := &astits.PATData{TransportStreamID: ts, Programs: []*astits.PATProgram{{ProgramNumber: pn, ProgramMapID: pid}, {ProgramNumber: ^pn, ProgramMapID: pid ^ 0x1fff}}}
+					out = append(out, tableCase{What: fmt.Sprintf("PAT product ts=%#x pn=%#x pid=%#x", ts, pn, pid), PID: 0, Secs: [][]byte{SecPAT(d, h)}, Exp: []ExpData{{Kind: "PAT", Table: d}}, Hdrs: []ref.SecHdr{withIDs(h, 0, ts, true, false)}})
+				}
+			}
+		}
+	case "PMT":
+		for _, pn := range u16Alpha {
+			for _, pcr := range pid13Alpha {
+				for _, es := range pid13Alpha {
+					for _, st := range []astits.StreamType{0, 0x1b, 0x55, 0xff} {
+						h := hv[len(out)%len(hv)]
+						d := &astits.PMTData{ProgramNumber: pn, PCRPID: pcr, ElementaryStreams: []*astits.PMTElementaryStream{{ElementaryPID: es, StreamType: st}, {ElementaryPID: es ^ 0x1fff, StreamType: ^st}}}
+						out = append(out, tableCase{What: fmt.Sprintf("PMT product pn=%#x pcr=%#x es=%#x st=%#x", pn, pcr, es, uint8(st)), PID: 0x1000, Secs: [][]byte{SecPMT(d, h)}, Exp: []ExpData{{Kind: "PMT", Table: d}}, Hdrs: []ref.SecHdr{withIDs(h, 2, pn, true, false)}})
+					}
+				}
+			}
+		}
+	case "SDT":
+		for _, ts := range u16Alpha {
+			for _, on := range u16Alpha {
+				for _, sid := range u16Alpha {
+					h := hv[len(out)%len(hv)]
+					d := &astits.SDTData{TransportStreamID: ts, OriginalNetworkID: on, Services: []*astits.SDTDataService{{ServiceID: sid, RunningStatus: uint8(sid % 8), HasEITSchedule: ts&1 != 0, HasEITPresentFollowing: on&1 != 0, HasFreeCSAMode: sid&1 != 0}, {ServiceID: ^sid, RunningStatus: 7}}}
+					out = append(out, tableCase{What: fmt.Sprintf("SDT product ts=%#x on=%#x sid=%#x", ts, on, sid), PID: 0x11, Secs: [][]byte{SecSDT(d, h)}, Exp: []ExpData{{Kind: "SDT", Table: d}}, Hdrs: []ref.SecHdr{withIDs(h, 0x42, ts, true, true)}})
+				}
+			}
+		}
+	case "NIT":
+		for _, ni := range u16Alpha {
+			for _, ts := range u16Alpha {
+				for _, on := range u16Alpha {
+					h := hv[len(out)%len(hv)]
+					d := &astits.NITData{NetworkID: ni, TransportStreams: []*astits.NITDataTransportStream{{TransportStreamID: ts, OriginalNetworkID: on}, {TransportStreamID: ^ts, OriginalNetworkID: ^on, TransportDescriptors: descRot(int(ts%8), 1)}}}
+					out = append(out, tableCase{What: fmt.Sprintf("NIT product nid=%#x ts=%#x on=%#x", ni, ts, on), PID: 0x10, Secs: [][]byte{SecNIT(d, h)}, Exp: []ExpData{{Kind: "NIT", Table: d}}, Hdrs: []ref.SecHdr{withIDs(h, 0x40, ni, true, true)}})
+				}
+			}
+		}
+	case "EIT":
+		durs := []time.Duration{0, time.Second, 99*time.Hour + 59*time.Minute + 59*time.Second, 12*time.Hour + 34*time.Minute + 56*time.Second}
+		for _, ev := range u16Alpha {
+			for rs := 0; rs < 8; rs++ {
+				for ca := 0; ca < 2; ca++ {
+					for ti, t := range dvbTimes {
+						for _, du := range durs {
+							h := hv[len(out)%len(hv)]
+							d := &astits.EITData{ServiceID: ^ev, TransportStreamID: ev ^ 0x0f0f, OriginalNetworkID: ev ^ 0x3c3c, SegmentLastSectionNumber: uint8(ev), LastTableID: uint8(ev >> 8),
+								Events: []*astits.EITDataEvent{{EventID: ev, StartTime: t, Duration: du, RunningStatus: uint8(rs), HasFreeCSAMode: ca == 1, Descriptors: descRot(rs, ti%3)},
+									{EventID: ^ev, StartTime: dvbTimes[(ti+1)%len(dvbTimes)], Duration: durs[(rs+1)%4], RunningStatus: uint8(7 - rs), HasFreeCSAMode: ca == 0}}}
+							out = append(out, tableCase{What: fmt.Sprintf("EIT product ev=%#x rs=%d ca=%d t=%d du=%s", ev, rs, ca, ti, du), PID: 0x12, Secs: [][]byte{SecEIT(d, h)}, Exp: []ExpData{{Kind: "EIT", Table: d}}, Hdrs: []ref.SecHdr{withIDs(h, 0x4e, d.ServiceID, true, true)}})
+						}
+					}
+				}
+			}
+		}
+	}
+	return
+}
+
 func checkC13(c *mc.Ctx) {
 	checkSpecConstants(c, "tables", specConstsTables())
 	c.Ev.Level = "exploration"
@@ -474,6 +543,7 @@ func checkC13(c *mc.Ctx) {
 		cases := gens[name]()
 		if c.Thorough() {
 			cases = append(cases, c13Ranges(name)...)
+			cases = append(cases, c13Products(name)...)
 		}
 		n := int64(len(cases))
 		done := mc.ParFor(n, c.OverBudget, func(i int64) {
